@@ -1,6 +1,7 @@
 import os
 
 NOKF = bool(os.environ.get("C13_NOKF"))      # run without the known-finding blocking clauses (to re-confirm the defects / check fixes)
+KF_OFF = set(filter(None, os.environ.get("C13_KF_OFF", "").split(",")))   # switch off single clauses, e.g. C13_KF_OFF=KF_TS_AF_LEN
 SOLVER = os.environ.get("C13_SOLVER", "cadical")
 
 # known-finding defines in force (see findings/*.md); each blocks exactly the described input class
@@ -20,18 +21,53 @@ KF = {
 }
 
 META = {
-    "bounds": "",
-    "outside": "",
-    "assumptions": [],
+    "bounds": "packet/buffer = exactly sized heap object of concrete length L with ALL byte contents symbolic; offsets, counts, types, "
+              "start lines symbolic (full size_t / field range). quick | thorough lengths: "
+              "DNS name walkers (get_name_len, 2name with name buffers 1..8) L=0,11..15 | ..16 (16 = smallest message holding a "
+              "compression cycle, real DNS_MAX_NAME_CYCLES=64 unwound); SequenceOfLabelsGetSize/ToDomainName L<=5 | <=8; question L<=17 | <=19; "
+              "RR L<=23 | <=25; dns_msg_info_get/validate/size_get (all four header counts symbolic) L<=17 | <=28; "
+              "RADIUS radius_pkt_chk L=0..4,19..26 | ..30, attribute getters/finders on chk-accepted packets L=20..26 | ..28, get_data_to_buf out 1..8; "
+              "HTTP skip_spwsp(2) L<=3 | <=6, wsp2sp/ht2sp (separate and in place) L<=6 | <=9, request line L=11,14,16 | 10..24, status line L=13..17 | ..21, "
+              "hdr_val_get_ex/get_count/remove L<=6 | <=9 with names of 1 | 0..2 symbolic bytes, query get/del L<=5 | <=7, chunked L<=8 | <=11 plus the "
+              "2^64-wrap shapes (L=18..21, size line starting with 15 'f'), url_decode L<=5 | <=8 with out buffers 0..L+1, req_sec_chk L<=4 | <=6; "
+              "SDP type_get/feilds_get L<=8 | <=11, sec_chk L<16 (early reject); SAP L=0..40 | ..60; RTP L=0..20 | ..80; MPEG-TS is_valid L=187,188,208,209 | all "
+              "four sizes, get_next buffers 187..210 | ..377; dhcp4_hdr_check L=0,239,240,241 | ..300. "
+              "Decided per job: every dereference / memcpy / memmove / memcmp range inside the objects (CBMC bounds + pointer checks), termination "
+              "(unwinding assertions), result codes, and every returned pointer/length/offset inside the message (V_ASSERTs).",
+    "outside": "sdp_msg_sec_chk on messages >= 16 bytes that pass the 'v=0' prefix test (6 nested count/find walks: no verdict in 1500 s at L=16; its callees "
+               "sdp_msg_type_get / count are decided separately for L<=11); http_req_sec_chk for blocks > 6 bytes and http_hdr_val_get_count for blocks > 9 bytes "
+               "(same reason); dns_msg_rr_find (510-byte on-stack name buffer with symbolic-length memcpy: cbmc / the SAT back end run out of memory at L=23 with 8 and "
+               "with 20 GB; its callee dns_msg_rr_get_data is decided separately); compression walks in messages longer than 16 bytes; mpeg2_ts_pkt_size_detect (64-candidate "
+               "table over >= 208-byte buffers); lengths above the listed ones up to the protocol maxima (64 KiB DNS/TCP, 4 KiB RADIUS, ...); DHCPv4 option "
+               "walkers (the header defines option tables but no walker function; only dhcp4_hdr_check exists); the non-glibc fallbacks of al/os.h "
+               "(memmem/memrchr) and the byte-loop variant of mem_cmpi (the real Linux build uses libc).",
+    "assumptions": [
+        "malloc never fails in harness allocations (v_alloc assumes non-NULL)",
+        "libc environment: memchr / memrchr / memmem / strnlen = /verif/lib/libc_models.h (CBMC-only bodies; real glibc under ASan in replays); memcmp, "
+        "memcpy, memmove, strncasecmp = CBMC built-in models",
+        "forming or comparing an out-of-range pointer VALUE without dereferencing it (e.g. `val = sdp_msg - 2`, `name = http_hdr_end + 2`, `cur_pos + label > max_pos`) "
+        "is not counted as a violation: cbmc's 'pointer relation: pointer outside object bounds' checks are deselected (not observable by ASan/UBSan; "
+        "--pointer-overflow-check is off in the driver for the same reason)",
+        "RADIUS attribute functions are run on packets for which the real radius_pkt_chk(pkt, received_size) returned 0 (documented call order in radius.h)",
+        "dns_msg_question_get_data / dns_msg_rr_get_data / dns_msg_rr_find are given offsets >= 12 (behind the header): for offsets 1..7 the code forms "
+        "`(dns_question_p)(hdr + offset + name_size - sizeof(uint8_t*))`, a pointer before the object whose accessed fields are inside it; cbmc's "
+        "integer-to-pointer model flags that although no byte outside is touched",
+        "mpeg2_ts_pkt_get_next: caller's offset <= buf_size (otherwise `buf_size - off` wraps: caller parameter, not packet content)",
+        "http_hdr_val_remove: hdr_lcase is the lower-case copy of the same size produced by the real mem_to_lower()",
+        "known-finding clauses in force (KF dict in jobs.py; each excludes exactly the input class of one unrepaired defect, see findings/*.md). "
+        "ref_walk_leaves_msg / ref_seq_leaves_buf2 / ref_sections_hit_known_defect in dns.c are reference walks used ONLY as these blocking predicates",
+    ],
     "harness_functions": ["harness", "v_alloc", "v_buf", "memchr", "memrchr", "memmem", "explicit_bzero", "strnlen",
                           "ref_walk_leaves_msg", "ref_seq_leaves_buf", "ref_seq_leaves_buf2", "ref_sections_hit_known_defect"],
 }
+if not NOKF:
+    META["assumptions"] += ["%s: blocked input class = %s" % (k, v) for k, v in sorted(KF.items()) if k not in KF_OFF]
 
 
 def kf(*names):
     if NOKF:
         return {}
-    return {n: None for n in names if n in KF}
+    return {n: None for n in names if n in KF and n not in KF_OFF}
 
 
 def J(out, name, src, defs, shape, desc, unwind=None, unwindset=None, kfs=(), timeout=None, solver=None, flags=None, cost=1):
@@ -54,20 +90,20 @@ def dns_jobs(tier, out):
     q = tier == "quick"
     NAMEKF = ("KF_DNS_NAME_END", "KF_DNS_SEQ_END")
     # T=1 name length, T=2 name expansion.  Loop trip count: up to 64 jumps, each followed by the labels that fit.
-    for L in ([0, 11, 12, 13, 14, 15] if q else [0, 11, 12, 13, 14, 15, 16, 17]):
+    for L in ([0, 11, 12, 13, 14, 15] if q else [0, 11, 12, 13, 14, 15, 16]):
         area = max(L - 12, 0)
         it = 8 if area < 4 else 66 * (1 + area // 2) + 4
         J(out, "dns-name-len-L%d" % L, "dns.c", {"T": 1, "LEN": L, "REFSTEPS": it},
           "message %d bytes, any offset" % L, "dns_msg_sequence_of_labels_get_name_len: in-bounds reads, result codes",
           unwind=4, unwindset=["dns_msg_sequence_of_labels_get_name_len.0:%d" % it, "ref_walk_leaves_msg.0:%d" % (it + 1)],
-          kfs=NAMEKF, cost=it)
+          kfs=NAMEKF, cost=it * 10, timeout=(2400 if it > 8 else None))
         for nb in ([1, 4] if q else [1, 2, 4, 8]):
             it2 = 8 if area < 4 else 66 + nb + 4
             J(out, "dns-2name-L%d-B%d" % (L, nb), "dns.c", {"T": 2, "LEN": L, "NBUF": nb, "REFSTEPS": it2},
               "message %d bytes, name buffer %d bytes, any offset" % (L, nb),
               "dns_msg_sequence_of_labels2name: in-bounds reads/writes, NUL, reported length",
               unwind=4, unwindset=["dns_msg_sequence_of_labels2name.0:%d" % it2, "ref_walk_leaves_msg.0:%d" % (it2 + 1)],
-              kfs=NAMEKF, cost=it2)
+              kfs=NAMEKF, cost=it2 * 3, timeout=(2400 if it2 > 8 else None))
     for L in ([0, 1, 2, 3, 5] if q else range(0, 9)):
         J(out, "dns-seqsize-L%d" % L, "dns.c", {"T": 3, "LEN": L}, "label sequence buffer %d bytes" % L,
           "SequenceOfLabelsGetSize: in-bounds reads, size inside the buffer", unwind=L + 3, kfs=NAMEKF)
@@ -81,16 +117,16 @@ def dns_jobs(tier, out):
         it = 70 if L >= cyc else 8
         return it, ["dns_msg_sequence_of_labels2name.0:%d" % it, "ref_walk_leaves_msg.0:%d" % (it + 1),
                     "SequenceOfLabelsGetSize.0:%d" % (max(L - 12, 0) + 3), "ref_seq_leaves_buf2.0:%d" % (L + 3)] + list(extra)
-    for L in ([12, 16, 17] if q else [0, 11, 12, 13, 16, 17, 18, 19, 20]):
+    for L in ([12, 16, 17] if q else [0, 11, 12, 13, 16, 17, 18, 19]):
         it, us = nm_us(L, 18)
         J(out, "dns-question-L%d" % L, "dns.c", {"T": 5, "LEN": L, "NBUF": 4, "REFSTEPS": it}, "message %d bytes, name buffer 4, any offset" % L,
           "dns_msg_question_get_data: span inside the message, name terminated", unwind=4, unwindset=us, kfs=NAMEKF, cost=it)
-    for L in ([12, 22, 23] if q else [0, 11, 12, 13, 21, 22, 23, 24, 25, 26]):
+    for L in ([12, 22, 23] if q else [0, 11, 12, 13, 21, 22, 23, 24, 25]):
         it, us = nm_us(L, 24)
         J(out, "dns-rr-L%d" % L, "dns.c", {"T": 6, "LEN": L, "NBUF": 4, "REFSTEPS": it}, "message %d bytes, name buffer 4, any offset" % L,
           "dns_msg_rr_get_data: span, RDATA pointer/length inside the message", unwind=4, unwindset=us,
           kfs=NAMEKF + ("KF_DNS_RR_RDLENGTH",), cost=it)
-    for L in ([] if q else [22, 23, 24]):
+    for L in []:   # dns_msg_rr_find: no verdict (see META outside); harness kept (dns.c T=7)
         it, us = nm_us(L, 24, ["dns_msg_rr_find.0:%d" % ((L - 12) // 11 + 2), "strncasecmp.0:6"])
         J(out, "dns-rrfind-L%d" % L, "dns.c", {"T": 7, "LEN": L, "REFSTEPS": it}, "message %d bytes, any offset/count, name <= 4 bytes" % L,
           "dns_msg_rr_find: found RR inside the message", unwind=4, unwindset=us,
@@ -112,7 +148,7 @@ def dns_jobs(tier, out):
 def radius_jobs(tier, out):
     q = tier == "quick"
     for L in ([0, 2, 3, 4, 19, 20, 23, 26] if q else list(range(0, 5)) + list(range(19, 31))):
-        if L < 4 and not NOKF and "KF_RADIUS_CHK_SHORT" in KF:
+        if L < 4 and kf("KF_RADIUS_CHK_SHORT"):
             continue        # known finding radius_pkt_chk_short: these shapes ARE the defect class
         J(out, "radius-chk-L%d" % L, "radius.c", {"T": 1, "LEN": L}, "received %d bytes" % L,
           "radius_pkt_chk: in-bounds reads; accepted => attributes tile [20,len) inside the received bytes",
@@ -138,7 +174,7 @@ def http_jobs(tier, out):
                 "strncasecmp.0:%d" % (nl + 2)]
     for t, nm in ((1, "skip-spwsp"), (2, "skip-spwsp2")):
         for L in ([0, 1, 3] if q else range(0, 7)):
-            if L == 0 and not NOKF and "KF_HTTP_SKIP_SPWSP_END" in KF:
+            if L == 0 and kf("KF_HTTP_SKIP_SPWSP_END"):
                 continue        # known finding http_skip_spwsp: the empty buffer IS in the defect class
             J(out, "http-%s-L%d" % (nm, L), "http.c", {"T": t, "LEN": L}, "buffer %d bytes" % L,
               nm + ": in-bounds reads, returned span inside the buffer", unwind=L + 3, kfs=("KF_HTTP_SKIP_SPWSP_END",))
@@ -148,7 +184,7 @@ def http_jobs(tier, out):
                 J(out, "http-%s-L%d-%s" % (nm, L, "inplace" if ip else "copy"), "http.c", {"T": t, "LEN": L, "INPLACE": ip},
                   "buffer %d bytes, %s" % (L, "in place" if ip else "separate output of the same size"),
                   nm + ": in-bounds reads/writes, size", unwind=L + 3)
-    for L in ([11, 14, 16] if q else range(10, 25)):
+    for L in ([11, 14, 16] if q else [10, 11, 12, 13, 14, 15, 16, 17, 18, 20, 22, 24]):
         J(out, "http-reqline-L%d" % L, "http.c", {"T": 5, "LEN": L}, "header block %d bytes" % L,
           "http_parse_req_line: every returned span inside the line", unwind=L + 3, kfs=("KF_HTTP_SKIP_SPWSP_END",), cost=20)
     for L in ([13, 14, 17] if q else range(13, 22)):
@@ -175,10 +211,17 @@ def http_jobs(tier, out):
             J(out, "http-querydel-L%d-N%d" % (L, nl), "http.c", {"T": 11, "LEN": L, "NLEN": nl},
               "query %d bytes, name %d bytes" % (L, nl), "http_query_val_del: in-bounds moves, size shrinks", unwind=L + 3,
               unwindset=us, cost=20)
-    for L in ([0, 1, 4, 8] if q else list(range(0, 12)) + [19, 20]):
+    # chunk sizes: up to 11 bytes of input hold at most 9 hex digits (no pointer wrap possible, and none in CBMC's 52-bit
+    # offset arithmetic either); the 2^64 wrap is looked for by dedicated shapes whose size line starts with 15 'f'
+    for L in ([0, 1, 4, 8] if q else range(0, 12)):
         J(out, "http-chunked-L%d" % L, "http.c", {"T": 12, "LEN": L}, "body %d bytes" % L,
           "http_data_decode_chunked: in-bounds reads/moves, decoded span inside the buffer", unwind=L + 3,
-          unwindset=["http_data_decode_chunked.0:%d" % (L // 4 + 3)], kfs=("KF_HTTP_CHUNKED_SIZE_WRAP",))
+          unwindset=["http_data_decode_chunked.0:%d" % (L // 4 + 3)])
+    if not kf("KF_HTTP_CHUNKED_SIZE_WRAP"):     # known finding http_chunked_size_wrap: these shapes ARE the defect class
+        for L in ([18] if q else [18, 19, 21]):
+            J(out, "http-chunked-wrap-L%d" % L, "http.c", {"T": 12, "LEN": L, "CHUNK16F": None}, "body %d bytes, size line fffffffffffffff?..." % L,
+              "http_data_decode_chunked: chunk size near 2^64 is refused", unwind=L + 3,
+              unwindset=["http_data_decode_chunked.0:%d" % (L // 4 + 3)])
     for L in ([0, 1, 3, 5] if q else range(0, 9)):
         for nb in sorted(set([0, 1, L + 1] if q else [0, 1, 2, L, L + 1])):
             J(out, "http-urldecode-L%d-B%d" % (L, nb), "http.c", {"T": 13, "LEN": L, "NBUF": nb},
@@ -191,13 +234,19 @@ def http_jobs(tier, out):
 
 def media_jobs(tier, out):
     q = tier == "quick"
-    for L in ([0, 1, 2, 5, 8] if q else range(0, 13)):
-        if L == 1 and not NOKF and "KF_SDP_TYPE_GET_END" in KF:
+    for L in ([0, 1, 2, 5, 8] if q else range(0, 12)):
+        if L == 1 and kf("KF_SDP_TYPE_GET_END"):
             continue            # known finding sdp_type_get_end: every 1-byte message is in the defect class
         J(out, "sdp-typeget-L%d" % L, "media.c", {"T": 1, "LEN": L}, "message %d bytes, any start line/type" % L,
           "sdp_msg_type_get: in-bounds reads, value span inside the message", unwind=L + 3, kfs=("KF_SDP_TYPE_GET_END",))
         J(out, "sdp-fields-L%d" % L, "media.c", {"T": 3, "LEN": L, "NF": 3}, "line %d bytes, 3 field slots" % L,
           "sdp_msg_feilds_get: field spans inside the buffer", unwind=L + 5)
+    for L in ([0, 4, 6] if q else [0, 2, 4, 6, 8, 9]):
+        n = L // 2 + 2
+        J(out, "sdp-typecount-L%d" % L, "media.c", {"T": 10, "LEN": L}, "message %d bytes, any type" % L,
+          "sdp_msg_type_get_count: in-bounds reads, terminates, bounded count", unwind=L + 3,
+          unwindset=["sdp_msg_type_get_count.0:%d" % n, "sdp_msg_type_get.0:%d" % n, "sdp_msg_type_get.1:%d" % n],
+          kfs=("KF_SDP_TYPE_GET_END",), cost=10)
     for L in ([0, 15] if q else [0, 5, 15]):
         J(out, "sdp-secchk-L%d" % L, "media.c", {"T": 2, "LEN": L}, "message %d bytes" % L,
           "sdp_msg_sec_chk: in-bounds reads, terminates", unwind=L + 3,
@@ -213,7 +262,7 @@ def media_jobs(tier, out):
         J(out, "ts-valid-L%d" % L, "media.c", {"T": 6, "LEN": L}, "packet %d bytes" % L,
           "mpeg2_ts_pkt_is_valid: in-bounds reads", unwind=4, kfs=("KF_TS_AF_LEN",))
     for L, ps in ([(187, 188), (188, 188), (190, 188), (210, 208)] if q else
-                  [(0, 188), (187, 188), (188, 188), (189, 188), (190, 188), (192, 192), (204, 204), (208, 208), (210, 208), (377, 188)]):
+                  [(0, 188), (187, 188), (188, 188), (189, 188), (190, 188), (192, 192), (204, 204), (208, 208), (210, 208), (250, 188)]):
         J(out, "ts-next-L%d-P%d" % (L, ps), "media.c", {"T": 7, "LEN": L, "PSZ": ps}, "buffer %d bytes, packet size %d, offset <= size" % (L, ps),
           "mpeg2_ts_pkt_get_next: returned packet wholly inside the buffer", unwind=L + 3,
           unwindset=["mpeg2_ts_pkt_get_next.0:3"])
